@@ -332,6 +332,19 @@ func Run(c *fw.Ctx) {
 			runCase(cs, t, family)
 		})
 	}
+	// histories on the read-only sparse vectors (constvec.go)
+	for _, t := range gen.Types {
+		t := t
+		if t.IsReal {
+			continue
+		}
+		c.Cases("constvec/"+t.Name, c.N(3000, 40000), func(cs *fw.Case) {
+			if cs.Index < 1 {
+				cs.Sample(map[string]any{"type": t.Name, "monitor": "constvec"})
+			}
+			runConstVec(cs, t)
+		})
+	}
 }
 
 var _ = prng.New
